@@ -67,7 +67,7 @@ def classes():
     L = lib()
 
     class RecSubscriber(L['Subscriber']):
-        def __init__(self, world, side, uid, dirn, n0=MAXN, refill=0, raise_at=None):
+        def __init__(self, world, side, uid, dirn, n0=MAXN, refill=0, raise_at=None, cancel_at=None):
             self.world, self.side, self.uid, self.dirn = world, side, uid, dirn
             self.n0 = n0
             self.refill = refill
@@ -77,6 +77,7 @@ def classes():
             self.count = 0
             self.requested = 0
             self.raise_at = raise_at
+            self.cancel_at = cancel_at
 
         def ev(self, kind, **kw):
             return self.world.ev(self.side, kind, uid=self.uid, dir=self.dirn, **kw)
@@ -93,6 +94,8 @@ def classes():
             self.count += 1
             if is_complete:
                 self.terminal = True
+            elif self.cancel_at is not None and self.count == self.cancel_at:
+                self.cancel()
             elif self.refill and self.count % self.refill == 0:
                 self.request(self.refill)
             if self.raise_at is not None and self.count == self.raise_at:
